@@ -9,10 +9,11 @@ use crate::coqfmt as cf;
 use crate::rng::Rng;
 use crate::{CaseSet, Stats, Tier};
 
-pub const KINDS: [&str; 12] = [
+pub const KINDS: [&str; 13] = [
     "honest", "wrong-leaf", "wrong-index-in-width", "alias-index-beyond-width",
     "proof-element-corrupted", "proof-truncated", "proof-extended", "root-mutated",
     "padded-position", "inner-node-as-leaf", "random-proof-of-length", "honest-last-explicit-empties",
+    "last-proof-of-canonical-empty-roots",
 ];
 
 struct Query {
@@ -23,6 +24,7 @@ struct Query {
     proof: Vec<Vec<u8>>,
     chk: bool,
     last: bool,
+    panicked: bool,
 }
 
 fn h2v(h: &Hash) -> Vec<u8> {
@@ -40,8 +42,12 @@ fn run_query(q: &mut Query, tree_root: &Hash) {
         None => tree_root.clone(),
     };
     let proof: Vec<Hash> = q.proof.iter().map(|p| v2h(p)).collect();
-    q.chk = PlainMerkleTree::check_proof(&q.leaf, q.idx as usize, &root, &proof);
-    q.last = PlainMerkleTree::check_proof_last(&q.leaf, q.idx as usize, &root, &proof);
+    // a panic of the verifier is a finding of its own (hostile proofs must be rejected, not crash the task)
+    let r1 = std::panic::catch_unwind(std::panic::AssertUnwindSafe(|| PlainMerkleTree::check_proof(&q.leaf, q.idx as usize, &root, &proof)));
+    let r2 = std::panic::catch_unwind(std::panic::AssertUnwindSafe(|| PlainMerkleTree::check_proof_last(&q.leaf, q.idx as usize, &root, &proof)));
+    q.panicked = r1.is_err() || r2.is_err();
+    q.chk = r1.unwrap_or(false);
+    q.last = r2.unwrap_or(false);
 }
 
 fn leaf_count(rng: &mut Rng, tier: Tier, i: usize) -> usize {
@@ -67,7 +73,7 @@ pub fn generate(seed: u64, tier: Tier) -> CaseSet {
     let mut sigs = Vec::new();
     let mut stats = Stats::default();
     let mut seen: HashSet<String> = HashSet::new();
-    let mut kind_count = [0u64; 12];
+    let mut kind_count = [0u64; 13];
     let mut verdict_count = [0u64; 4];
     let mut sizes: Vec<usize> = Vec::new();
     for cid in 0..ncases {
@@ -100,12 +106,12 @@ pub fn generate(seed: u64, tier: Tier) -> CaseSet {
             let p = tree.create_proof(i);
             let pv: Vec<Vec<u8>> = p.iter().map(h2v).collect();
             proofs_txt.push(cf::pair(&cf::n(i as u64), &cf::list(&pv.iter().map(|x| it.hex(x)).collect::<Vec<_>>())));
-            queries.push(Query { kind: 0, leaf: leaves[i].clone(), idx: i as u64, root: None, proof: pv.clone(), chk: false, last: false });
+            queries.push(Query { kind: 0, leaf: leaves[i].clone(), idx: i as u64, root: None, proof: pv.clone(), chk: false, last: false, panicked: false });
             // mutations of the honest proof
             let nm = if n <= 20 { 3 } else { 6 };
             for _ in 0..nm {
                 let kind = rng.range(1, 10) as usize;
-                let mut q = Query { kind, leaf: leaves[i].clone(), idx: i as u64, root: None, proof: pv.clone(), chk: false, last: false };
+                let mut q = Query { kind, leaf: leaves[i].clone(), idx: i as u64, root: None, proof: pv.clone(), chk: false, last: false, panicked: false };
                 match kind {
                     1 => {
                         if rng.chance(1, 2) && n > 1 { let j = (i + 1 + rng.below(n as u64 - 1) as usize) % n; q.leaf = leaves[j].clone(); }
@@ -163,12 +169,25 @@ pub fn generate(seed: u64, tier: Tier) -> CaseSet {
                 let mut p: Vec<Vec<u8>> = tree.create_proof(0).iter().map(h2v).collect();
                 while p.len() < l { p.push(rng.bytes(32)); }
                 p.truncate(l);
-                queries.push(Query { kind: 10, leaf: leaves[0].clone(), idx: 0, root: None, proof: p, chk: false, last: false });
+                queries.push(Query { kind: 10, leaf: leaves[0].clone(), idx: 0, root: None, proof: p, chk: false, last: false, panicked: false });
+            }
+        }
+        // last-leaf proofs made of the canonical empty-subtree roots, of every length around the maximal height
+        // (each entry is exactly what the verifier compares with at a left-child height)
+        if cid < 6 {
+            let empties: Vec<Vec<u8>> = alpenglow::crypto::merkle::verif_hooks::empty_roots().iter().map(|r| h2v(r)).collect();
+            for l in [empties.len().saturating_sub(2), empties.len() - 1, empties.len(), empties.len() + 1, empties.len() + 2, empties.len() + 8] {
+                for idx in [0u64, 1] {
+                    let mut pf: Vec<Vec<u8>> = empties.iter().cloned().take(l).collect();
+                    while pf.len() < l { pf.push(if rng.chance(1, 2) { empties[empties.len() - 1].clone() } else { rng.bytes(32) }); }
+                    queries.push(Query { kind: 12, leaf: leaves[0].clone(), idx, root: None, proof: pf, chk: false, last: false, panicked: false });
+                }
             }
         }
         let mut qtxt = Vec::new();
         for (qi, q) in queries.iter_mut().enumerate() {
             run_query(q, &root);
+            if q.panicked { stats.harness_findings.push((cid as u64, format!("merkle-query:{}:verifier-panicked", KINDS[q.kind]))); }
             sigs.push((cid as u64, qi as u64, format!("merkle-query:{}:check={}:last={}", KINDS[q.kind], q.chk, q.last)));
             kind_count[q.kind] += 1;
             verdict_count[(q.chk as usize) * 2 + q.last as usize] += 1;
@@ -196,7 +215,7 @@ pub fn generate(seed: u64, tier: Tier) -> CaseSet {
         descr.push(format!("case {}: tree with {} leaves (height {}), {} created proofs, {} queries", cid, n, ht, idxs.len(), queries.len()));
         cases.push(case);
     }
-    stats.rule = "trees with structured leaf counts (1..=100, around powers of two; thorough: up to 1025) x queries (honest proof for every/sampled index + mutations: wrong leaf, wrong index, alias index i+k*2^h beyond the width, corrupted/truncated/extended proof, mutated root, padded position, inner node offered as leaf, proof-length sweep 0..=33); a query is non-trivial when the tree has >= 2 leaves and the proof is non-empty; distinct by full content".to_string();
+    stats.rule = "trees with structured leaf counts (1..=100, around powers of two; thorough: up to 1025) x queries (honest proof for every/sampled index + mutations: wrong leaf, wrong index, alias index i+k*2^h beyond the width, corrupted/truncated/extended proof, mutated root, padded position, inner node offered as leaf, proof-length sweep 0..=33, last-leaf proofs built from the canonical empty-subtree roots with lengths around the maximal tree height); a query is non-trivial when the tree has >= 2 leaves and the proof is non-empty; distinct by full content".to_string();
     stats.distribution.push(("query_kinds".into(), KINDS.iter().zip(kind_count.iter()).map(|(k, c)| format!("{}={}", k, c)).collect::<Vec<_>>().join(", ")));
     stats.distribution.push(("impl_verdicts(check,last)".into(), format!("FF={} FT={} TF={} TT={}", verdict_count[0], verdict_count[1], verdict_count[2], verdict_count[3])));
     sizes.sort();
